@@ -24,7 +24,15 @@ type VerifTree struct {
 	nodes []*MIME
 	saved []MIME
 	root  reflect.Value // copy of the root variable's value
+	// backs: for every slice-of-pointers field of every node, the original backing
+	// array over its whole capacity (dst) and a copy of what it held (keep). Restore
+	// writes the contents back and leaves the slice headers as they were at process
+	// start, so that capacities and shared backing arrays - which code built on
+	// append may depend on - are exactly those of a fresh process.
+	backs []verifBacking
 }
+
+type verifBacking struct{ dst, keep reflect.Value }
 
 var mimeType = reflect.TypeOf(MIME{})
 
@@ -46,7 +54,7 @@ func verifVisit(v reflect.Value, seen map[unsafe.Pointer]bool, s *VerifTree, dep
 			m := (*MIME)(p)
 			s.nodes = append(s.nodes, m)
 			s.saved = append(s.saved, *m)
-			privateSlices(&s.saved[len(s.saved)-1])
+			s.saveBackings(m)
 		}
 		verifVisit(v.Elem(), seen, s, depth+1)
 	case reflect.Struct:
@@ -85,17 +93,17 @@ func verifVisit(v reflect.Value, seen map[unsafe.Pointer]bool, s *VerifTree, dep
 	}
 }
 
-// privateSlices replaces every slice-of-pointers field of *m by a copy, so
-// that an in-place change of the original backing array cannot be seen through m.
-func privateSlices(m *MIME) {
+// saveBackings records the full-capacity contents of every slice-of-pointers field of *m.
+func (s *VerifTree) saveBackings(m *MIME) {
 	nv := reflect.ValueOf(m).Elem()
 	for f := 0; f < nv.NumField(); f++ {
 		fv := nv.Field(f)
-		if fv.Kind() == reflect.Slice && !fv.IsNil() && fv.Type().Elem().Kind() == reflect.Ptr {
+		if fv.Kind() == reflect.Slice && !fv.IsNil() && fv.Type().Elem().Kind() == reflect.Ptr && fv.Cap() > 0 {
 			fv = reflect.NewAt(fv.Type(), unsafe.Pointer(fv.UnsafeAddr())).Elem()
-			c := reflect.MakeSlice(fv.Type(), fv.Len(), fv.Len())
-			reflect.Copy(c, fv)
-			fv.Set(c)
+			full := fv.Slice3(0, fv.Cap(), fv.Cap())
+			keep := reflect.MakeSlice(fv.Type(), full.Len(), full.Len())
+			reflect.Copy(keep, full)
+			s.backs = append(s.backs, verifBacking{dst: full, keep: keep})
 		}
 	}
 }
@@ -111,15 +119,18 @@ func VerifSnapshotTree() *VerifTree {
 }
 
 // Restore puts the root variable and every recorded node back; nodes added
-// later become unreachable. Slices held by the saved values are re-copied so
-// that a later in-place change cannot reach into the snapshot.
+// later become unreachable. The slice headers of the saved values are the
+// original ones; what their backing arrays held (over the whole capacity) is
+// written back first, which undoes in-place changes.
 func (s *VerifTree) Restore() {
 	if rv := verifRootValue(); rv.CanSet() {
 		rv.Set(s.root)
 	}
+	for _, b := range s.backs {
+		reflect.Copy(b.dst, b.keep)
+	}
 	for i, n := range s.nodes {
 		*n = s.saved[i]
-		privateSlices(n)
 	}
 }
 
